@@ -412,6 +412,7 @@ void h_setup_worker(void) {
   VERIF_CANARY();
 }
 
+#ifndef POOL_MALLOC      /* the static descriptor pool POOL exists in this configuration only */
 /* ---------------- a worker OS thread of rank > 0: myth_worker_start_ex_body ----------------
  * The descriptor array comes from plain malloc (not cleared).  myth_cleanup_worker frees whatever env->sched.stack holds,
  * so a worker that allocates no scheduler stack must say so before it can reach the clean-up ("the workers stop
@@ -439,6 +440,8 @@ void h_worker_start(void) {
   __CPROVER_assert(g_ws_setup == 1 && g_ws_loop == 1 && g_ws_cleanup == 1, "worker start: set-up, scheduling loop, clean-up -- each exactly once, in this order");
   VERIF_CANARY();
 }
+
+#endif
 
 /* worker index and count */
 void h_worker_num(void) {
